@@ -110,7 +110,7 @@ def main():
     hash_min = min(o["min"] for o in opts if o["name"] == "Hash")
     # model: the crash clause of Uci.tla with the advertised Hash minimum
     cfg = os.path.join(chk.outdir, "MC_Uci_opts.cfg")
-    games.gen_cfg(cfg, {"ResetOnGo": True, "MaxCmds": 0, "HashMinZero": hash_min == 0},
+    games.gen_cfg(cfg, {"ResetOnGo": True, "MaxCmds": 0, "HashMinZero": hash_min == 0, "InfiniteMayEnd": True},
                   "SPECIFICATION Spec\nINVARIANTS TypeOK NoCrash NoHang\n")
     mc = vlib.tlc("Uci", cfg=cfg, workers=4, timeout=1200, xmx="4g", dfs=False)
     chk.add("states", max(mc.distinct, 1))
